@@ -21,7 +21,7 @@ CHECKS = {
    note='Trusted: fairness of the counter-hash default stream; horizon 1e5 deviates; kinetic-energy bound 12 MeV.'),
  'C08': dict(level='exploration', ref='DESIGN.md §2 C08', engine='dx',
    technique='the bounded exhaustive explorations of C01-C04 re-run on an ASan+UBSan+_GLIBCXX_ASSERTIONS build, sanitizer reports as oracle',
-   text='The same exhaustive edge-coverage exploration (every published name, every accepted double-beta configuration, windows; generator and plumbing entry points in the thorough tier) is executed against the sanitizer build of /repo in recover mode, together with the drivers of C07 (API histories over every double-beta mode), C09, C10 and C11; any AddressSanitizer/UBSan report or fatal signal is a violation identified by kind and top bxdecay0 frame.',
+   text='The same exhaustive edge-coverage exploration (every published name, every accepted double-beta configuration, windows; generator and plumbing entry points in the thorough tier) is executed against the sanitizer build of /repo in recover mode, together with the drivers of C14 (gA sampler), C07 (API histories over every double-beta mode), C09, C10 and C11; any AddressSanitizer/UBSan report (UBSan through the runtime report hook) or fatal signal is a violation identified by kind and top bxdecay0 frame. For never-assigned locals the edge coverage is repeated on an unoptimised build with pattern-initialised automatic variables and compared with the model; the thorough tier adds a valgrind pass.',
    note='Trusted: GCC ASan/UBSan; float division by zero excluded; uninitialised reads are outside ASan/UBSan.'),
  'C06': dict(level='model_checking', ref='DESIGN.md §2 C06', engine='c06',
    technique='complete enumeration of the finite request grid; acceptance compared cell by cell with the transpiled reference GENBBsub (kernel stubbed) and README rules',
@@ -49,7 +49,7 @@ CHECKS = {
    note='Trusted: closed forms; long double arithmetic of the reference evaluations.'),
  'C14': dict(level='exploration', ref='DESIGN.md §2 C14', engine='c14',
    technique='exhaustive enumeration of small synthetic datasets (all cell assignments over a value alphabet) x all table-boundary deviates, encoder-side tables as reference model',
-   text='Every assignment of a 4-value alphabet to the cells of the kinematic triangle (n=2,3; n=4 thorough) plus shaped larger tables, written with the repository\'s own encoder, is loaded by the real decoder and sampler; every c.d.f. line is compared with the encoder-side table, and both sampling methods are driven over every table boundary (exact and +-1e-9/1e-3), mid points and tails, checking domain, cell membership (for the rejection method: the accepted pair is the proposal of the accepted trial on the grid the file describes), monotonicity and the exported event (energy deviates scripted down to 1e-12); one object re-used across datasets must sample like a new one.',
+   text='Every assignment of a 4-value alphabet to the cells of the kinematic triangle (n=2,3; n=4 thorough) plus shaped larger tables, written with the repository\'s own encoder, is loaded by the real decoder and sampler; every c.d.f. line is compared with the encoder-side table, and both sampling methods are driven over every table boundary (exact and +-1e-9/1e-3), mid points and tails, checking domain, cell membership (for the rejection method: the accepted pair is the proposal of the accepted trial on the grid the file describes), monotonicity and the exported event (energy deviates scripted down to 1e-12); one object re-used across datasets must sample like a new one, and a dataset sampled after others in the same process like in a pristine process.',
    note='Trusted: resources/data/dbd_gA/tools/mkocdfdata.py as the documented encoder (imported, not copied); datasets with emin+emax <= Qbb.'),
  'C05': dict(level='exploration', ref='DESIGN.md §2 C05', engine='c05',
    technique='complete enumeration of the finite catalogues (README, list files, dispatch literals) with set equality, plus deviation-bounded exhaustive differential runs name-through-generator vs own scheme function',
